@@ -1881,6 +1881,68 @@ func (e *e3Engine) retentionFindings(f *ssa.Function, param int) []e3Finding {
 	return out
 }
 
+// sharedGlobalFindings: memory reachable from a package-level variable that becomes part of what the
+// function returns or stores into its receiver/parameters (shared between all values it produces).
+func (e *e3Engine) sharedGlobalFindings(f *ssa.Function) []e3Finding {
+	s := e.rootSummary(f)
+	inG := map[*Obj]bool{}
+	for g, c := range e.gheap {
+		_ = g
+		for o := range c {
+			inG[o] = true
+		}
+	}
+	isG := func(o *Obj) bool {
+		if o.kind == kFn || o.kind == kExt {
+			return false
+		}
+		return o.kind == kG || inG[o]
+	}
+	var out []e3Finding
+	seen := map[string]bool{}
+	add := func(where string, o *Obj) {
+		k := where + "|" + o.key
+		if seen[k] {
+			return
+		}
+		seen[k] = true
+		stable := o.key
+		if i := strings.Index(stable, "@"); i >= 0 {
+			stable = stable[:i] + ")"
+		}
+		out = append(out, e3Finding{short: where + " shares " + stable, pos: e.p.pos(f.Pos()),
+			detail: fmt.Sprintf("%s makes memory of a package-level variable (%s) part of %s: every value produced this way shares it, a write through one is seen through all", shortName(f), o.key, where)})
+	}
+	sig := f.Signature
+	for i, r := range s.ret {
+		if i < sig.Results().Len() && isErrorType(sig.Results().At(i).Type()) {
+			continue
+		}
+		for o := range r {
+			if isG(o) {
+				add(fmt.Sprintf("result %d", i), o)
+			}
+		}
+	}
+	for tgt, c := range s.stores {
+		if tgt.kind != kPd && tgt.kind != kPr {
+			continue
+		}
+		for o := range c {
+			if isG(o) {
+				add(describeTarget(f, tgt), o)
+			}
+		}
+	}
+	for o := range s.freshDeep {
+		if isG(o) {
+			add("memory allocated by the function that is returned or stored", o)
+		}
+	}
+	sort.Slice(out, func(i, j int) bool { return out[i].short < out[j].short })
+	return out
+}
+
 func describeTarget(f *ssa.Function, o *Obj) string {
 	if o.kind == kPd || o.kind == kPr {
 		name := fmt.Sprintf("parameter %d", o.idx)
